@@ -416,11 +416,24 @@ def check(pid, tier):
     os.makedirs(outroot)
     for old in glob.glob(os.path.join(build.build_root(), 'out', pid, 'violation-*.case')):
         os.unlink(old)
+    build_error = None
     try:
         binpaths = do_build(prop['bins'])
     except build.BuildError as e:
-        log('BUILD-ERROR property=%s: %s' % (pid, e))
-        return 2
+        built = getattr(e, 'built', {})
+        need = [b['name'] for b in prop['bins'] if b.get('src')]
+        if not built or all(n not in built for n in need):
+            log('BUILD-ERROR property=%s: %s' % (pid, e))
+            return 2
+        # some harnesses of this property do not compile against this tree: run the others - a violation they find is
+        # still a violation; if they find none the run ends as BUILD-ERROR (exit 2), never as OK
+        build_error = e
+        binpaths = built
+        prop = dict(prop, bins=[b for b in prop['bins'] if not b.get('src') or b['name'] in built])
+        # harnesses without a source of their own (Hypothesis drivers) need their aux binary
+        if any(b.get('kind') == 'aux' and b['name'] not in built for b in P.PROPS[pid]['bins']):
+            log('BUILD-ERROR property=%s: %s' % (pid, e))
+            return 2
     bins = {b['name']: b for b in prop['bins']}
     violations = []  # (replay path, message)
     notes = []
@@ -530,6 +543,9 @@ def check(pid, tier):
             log('--- ' + msg)
             log('VIOLATION property=%s replay=%s' % (pid, path))
         return 1
+    if build_error is not None:
+        log('BUILD-ERROR property=%s (the harnesses that did build found no violation): %s' % (pid, build_error))
+        return 2
     floor = prop.get('floor', {}).get(tier, prop.get('floor', {}).get('quick', 2)) if isinstance(prop.get('floor'), dict) else prop.get('floor', 2)
     if ev['coverage']['distinct_nontrivial'] < floor:
         log('VACUOUS property=%s: only %d distinct non-trivial cases (floor %d)' % (pid, ev['coverage']['distinct_nontrivial'], floor))
